@@ -507,3 +507,154 @@ def ctor_aliases(fn: FuncInfo) -> List[Tuple[ast.AST, str]]:
                     if isinstance(val, ast.Attribute) and isinstance(val.value, ast.Name) and val.value.id in params and val.attr.startswith("_"):
                         out.append((n, f"self.{t.attr} = {ast.unparse(val)}"))
     return out
+
+
+# ----------------------------------------------------------------------------- canonical guards
+# A guard is a boolean formula over atoms. Canonical form: negation normal form (negations pushed to the atoms with De Morgan,
+# `not X`, `is not`, `!=`, `not in` folded into the atom's polarity, isinstance(x, (A, B)) split into a disjunction), a
+# conjunction split into its conjuncts, disjuncts sorted. `if a: return` followed by code guards that code with `not a`
+# (early-exit complement); a local assigned exactly once from a boolean expression is replaced by that expression.
+def _nnf(e: ast.expr, pol: bool, txt) -> Tuple:
+    e, pol = norm_guard(e, pol)
+    if isinstance(e, ast.BoolOp):
+        kind = "and" if isinstance(e.op, ast.And) else "or"
+        if not pol:
+            kind = "or" if kind == "and" else "and"
+        parts = [_nnf(v, pol, txt) for v in e.values]
+        flat = []
+        for p in parts:
+            if p[0] == kind:
+                flat.extend(p[1])
+            else:
+                flat.append(p)
+        return (kind, flat)
+    if isinstance(e, ast.Call) and isinstance(e.func, ast.Name) and e.func.id == "isinstance" and len(e.args) == 2 and isinstance(e.args[1], ast.Tuple) and e.args[1].elts:
+        alts = [ast.Call(func=e.func, args=[e.args[0], t], keywords=[]) for t in e.args[1].elts]
+        return _nnf(ast.BoolOp(op=ast.Or(), values=alts), pol, txt) if len(alts) > 1 else _nnf(alts[0], pol, txt)
+    if isinstance(e, ast.Compare) and len(e.ops) > 1:
+        # a < b < c  ==  a < b and b < c
+        parts = []
+        left = e.left
+        for op, right in zip(e.ops, e.comparators):
+            parts.append(ast.Compare(left=left, ops=[op], comparators=[right]))
+            left = right
+        return _nnf(ast.BoolOp(op=ast.And(), values=parts), pol, txt)
+    if isinstance(e, ast.Constant) and isinstance(e.value, bool):
+        return ("const", e.value == pol)
+    return ("atom", txt(e), pol)
+
+
+def _render(f: Tuple) -> str:
+    if f[0] == "atom":
+        return f[1] if f[2] else f"not ({f[1]})"
+    if f[0] == "const":
+        return "True" if f[1] else "False"
+    parts = sorted(_render(x) if x[0] in ("atom", "const") else "(" + _render(x) + ")" for x in f[1])
+    return (" and " if f[0] == "and" else " or ").join(parts)
+
+
+def canonical_conjuncts(e: ast.expr, pol: bool, txt=None) -> List[str]:
+    """The guard (e is pol) as a list of canonical conjunct strings."""
+    txt = txt or (lambda n: " ".join(ast.unparse(n).split()))
+    f = _nnf(e, pol, txt)
+    if f[0] == "and":
+        return sorted(set(_render(x) for x in f[1] if not (x[0] == "const" and x[1])))
+    if f[0] == "const" and f[1]:
+        return []
+    return [_render(f)]
+
+
+def _ends_in_exit(body: List[ast.stmt]) -> bool:
+    return bool(body) and isinstance(body[-1], (ast.Return, ast.Raise, ast.Continue, ast.Break))
+
+
+def _single_bool_defs(root: ast.AST) -> Dict[str, ast.expr]:
+    """locals assigned exactly once in `root`, from a boolean-shaped expression"""
+    seen: Dict[str, List[ast.expr]] = {}
+    for n in ast.walk(root):
+        tg = []
+        if isinstance(n, ast.Assign):
+            tg = [(t, n.value) for t in n.targets]
+        elif isinstance(n, ast.AnnAssign) and n.value is not None:
+            tg = [(n.target, n.value)]
+        elif isinstance(n, (ast.AugAssign, ast.NamedExpr)):
+            t = n.target
+            if isinstance(t, ast.Name):
+                seen.setdefault(t.id, []).extend([None, None])  # type: ignore[list-item]
+        elif isinstance(n, (ast.For, ast.AsyncFor, ast.comprehension)):
+            for x in ast.walk(n.target):
+                if isinstance(x, ast.Name):
+                    seen.setdefault(x.id, []).extend([None, None])  # type: ignore[list-item]
+        for t, v in tg:
+            for x in ast.walk(t):
+                if isinstance(x, ast.Name):
+                    seen.setdefault(x.id, []).append(v if isinstance(t, ast.Name) else None)  # type: ignore[arg-type]
+    return {k: v[0] for k, v in seen.items() if len(v) == 1 and isinstance(v[0], (ast.BoolOp, ast.Compare)) or (len(v) == 1 and isinstance(v[0], ast.UnaryOp) and isinstance(v[0].op, ast.Not))}
+
+
+def effective_guards(node: ast.AST, root: ast.AST, txt=None, parents_map: Optional[Dict[int, ast.AST]] = None, markers: bool = True) -> Tuple[str, ...]:
+    """Canonical, order-free set of the conditions under which `node` (inside function `root`) runs: lexical if / conditional
+    expression tests, complements of earlier guard clauses that leave the block, with single-assignment boolean locals
+    replaced by their definition; plus context markers (`except X`, `finally`, `loop`) when `markers`."""
+    txt = txt or (lambda n: " ".join(ast.unparse(n).split()))
+    defs = _single_bool_defs(root)
+
+    def subst(e: ast.expr) -> ast.expr:
+        class S(ast.NodeTransformer):
+            def visit_Name(self, n):
+                if isinstance(n.ctx, ast.Load) and n.id in defs:
+                    return defs[n.id]
+                return n
+        import copy as _copy
+        e2 = _copy.deepcopy(e)
+        for x in ast.walk(e2):
+            if hasattr(x, "_parent"):
+                try:
+                    delattr(x, "_parent")
+                except Exception:
+                    pass
+        return S().visit(e2) if any(isinstance(x, ast.Name) and x.id in defs for x in ast.walk(e)) else e
+
+    def par(n):
+        if parents_map is not None:
+            return parents_map.get(id(n))
+        return getattr(n, "_parent", None)
+
+    out: List[str] = []
+    child = node
+    p_ = par(node)
+    while p_ is not None:
+        if isinstance(p_, ast.If):
+            if any(child is b for b in p_.body):
+                out += canonical_conjuncts(subst(p_.test), True, txt)
+            elif any(child is b for b in p_.orelse):
+                out += canonical_conjuncts(subst(p_.test), False, txt)
+        elif isinstance(p_, ast.IfExp):
+            if child is p_.body:
+                out += canonical_conjuncts(subst(p_.test), True, txt)
+            elif child is p_.orelse:
+                out += canonical_conjuncts(subst(p_.test), False, txt)
+        elif markers and isinstance(p_, ast.ExceptHandler):
+            out.append("except " + (txt(p_.type) if p_.type else "*"))
+        elif markers and isinstance(p_, ast.Try) and any(child is b for b in p_.finalbody):
+            out.append("finally")
+        elif markers and isinstance(p_, (ast.For, ast.While, ast.AsyncFor)) and any(child is b for b in p_.body):
+            out.append("loop")
+        # early-exit complements: earlier siblings of `child` in whichever block of p_ holds it
+        for fld in ("body", "orelse", "finalbody"):
+            blk = getattr(p_, fld, None)
+            if isinstance(blk, list) and any(child is b for b in blk):
+                for st in blk[: next(i for i, b in enumerate(blk) if b is child)]:
+                    if isinstance(st, ast.If):
+                        b_exit, e_exit = _ends_in_exit(st.body), _ends_in_exit(st.orelse)
+                        if b_exit and not e_exit:
+                            out += canonical_conjuncts(subst(st.test), False, txt)
+                        elif e_exit and not b_exit and st.orelse:
+                            out += canonical_conjuncts(subst(st.test), True, txt)
+        if isinstance(p_, ast.ExceptHandler) and isinstance(par(p_), ast.Try):
+            pass
+        if p_ is root:
+            break
+        child = p_
+        p_ = par(p_)
+    return tuple(sorted(set(out)))
